@@ -6,6 +6,8 @@ from bip_utils.utils.misc import BytesUtils, IntegerUtils
 from modeldrv import Z, T
 from bip_utils.bech32.bech32_base import Bech32BaseUtils
 from bip_utils.utils.misc import Base32Decoder, Base32Encoder
+from bip_utils import SS58Decoder, SS58Encoder
+import hashlib
 
 ALPHS = [Base58Alphabets.BITCOIN, Base58Alphabets.RIPPLE]
 
@@ -623,6 +625,117 @@ def gen_base32(ctx):
         ctx.run("b32_decode", ["".join(t), rng.randrange(len(allc))], "mutated-otheralph")
 
 
+# ------------------------------------------------------------------ SS58
+def b58_ref(b):
+    n = int.from_bytes(b, "big")
+    out = ""
+    while n:
+        n, r = divmod(n, 58)
+        out = B58[r] + out
+    return "1" * (len(b) - len(b.lstrip(b"\x00"))) + out
+
+
+def ss58_ref(data, fmt):
+    """SS58 from the Substrate address-format description; None when the arguments are not encodable."""
+    if len(data) != 32 or not (0 <= fmt <= 16383) or fmt in (46, 47):
+        return None
+    if fmt < 64:
+        pre = bytes([fmt])
+    else:
+        pre = bytes([0x40 + (fmt % 256) // 4, fmt // 256 + (fmt % 4) * 64])
+    payload = pre + data
+    return b58_ref(payload + hashlib.blake2b(b"SS58PRE" + payload, digest_size=64).digest()[:2])
+
+
+def d_ss58_enc(a):
+    data, fmt = a
+    want = ss58_ref(data, fmt)
+    try:
+        s = SS58Encoder.Encode(data, fmt)
+    except ValueError:
+        return None if want is None else "SS58 Encode(%s, %d) raised ValueError" % (data.hex(), fmt)
+    if want is None or s != want:
+        return "SS58 Encode(%s, %d) = %r, expected %r" % (data.hex(), fmt, s, want)
+    f, d = SS58Decoder.Decode(s)
+    return None if (f, d) == (fmt, data) else "SS58 Decode(Encode(data, %d)) = (%d, %s)" % (fmt, f, d.hex())
+
+
+def d_ss58_dec(a):
+    s, = a
+    try:
+        f, d = SS58Decoder.Decode(s)
+    except Exception:  # noqa  (error classes are compared by the correspondence, not here)
+        return None
+    e = ss58_ref(d, f)
+    return None if e == s else "accepted SS58 string %r = (%d, %s) re-encodes to %r" % (s, f, d.hex(), e)
+
+
+FUNCS.update({
+    "ss58_encode": Func(model=lambda m, a: m.call("ss58_encode", a[0], Z(a[1])),
+                        impl=lambda a: SS58Encoder.Encode(a[0], a[1]), direct=d_ss58_enc),
+    "ss58_decode": Func(model=lambda m, a: m.call("ss58_decode", a[0]),
+                        impl=lambda a: list(SS58Decoder.Decode(a[0])), direct=d_ss58_dec),
+})
+
+
+def ss58_raw(payload, good_ck=True):
+    ck = hashlib.blake2b(b"SS58PRE" + payload, digest_size=64).digest()[:2]
+    if not good_ck:
+        ck = bytes([ck[0] ^ 1, ck[1]])
+    return b58_ref(payload + ck)
+
+
+def gen_ss58(ctx):
+    rng = ctx.rng
+    fixed = bytes(range(32))
+    # all formats 0..16383 (and the neighbours of the range) through the encoder
+    for fmt in range(-2, 16390):
+        ctx.run("ss58_encode", [fixed, fmt], "allformats")
+    ctx.note_exhaustive("SS58: all formats -2..16389 through Encode (with the round trip as direct check); Decode on all "
+                        "formats in thorough, every 5th plus all boundaries in quick")
+    for fmt in range(0, 16384):
+        if not ctx.quick or fmt % 5 == 0 or fmt in (45, 46, 47, 48, 62, 63, 64, 65, 127, 128, 255, 256, 257, 16382, 16383):
+            if fmt not in (46, 47):
+                ctx.run("ss58_decode", [ss58_ref(fixed, fmt)], "allformats")
+    # data lengths
+    for n in (0, 1, 31, 33, 64):
+        ctx.run("ss58_encode", [bytes(n), 0], "datalen")
+        ctx.run("ss58_encode", [bytes(n), 1000], "datalen")
+    # decoder: every header shape on well-checksummed raw payloads (F3 classes: empty, one byte, reserved first byte,
+    # two-byte encodings of one-byte formats, reserved formats, wrong data length)
+    ctx.run("ss58_decode", [""], "empty", trivial=True)
+    for raw in (b"", b"\x00", b"\x2a", b"\x40", b"\x80", b"\xff", b"\x00\x00", b"\x40\x00"):
+        ctx.run("ss58_decode", [b58_ref(raw)], "short")
+        ctx.run("ss58_decode", [ss58_raw(raw)], "short")
+    for b0 in range(256):
+        for n in (31, 32, 33):
+            ctx.run("ss58_decode", [ss58_raw(bytes([b0]) + bytes(n))], "firstbyte")
+        ctx.run("ss58_decode", [ss58_raw(bytes([b0, rng.randrange(256)]) + fixed)], "firstbyte")
+    for b0 in range(64, 128):
+        for b1 in ((0, 1, 63, 64, 65, 128, 192, 255) if ctx.quick else range(256)):
+            ctx.run("ss58_decode", [ss58_raw(bytes([b0, b1]) + fixed)], "twobyte")
+            ctx.run("ss58_decode", [ss58_raw(bytes([b0, b1]) + fixed, good_ck=False)], "twobyte-badck")
+    for _ in range(ctx.n(300, 5000)):
+        data = bytes(rng.randrange(256) for _ in range(32))
+        fmt = rng.choice([0, 2, 42, 45, 48, 63, 64, 65, 255, 256, 1284, 16383, rng.randrange(16384)])
+        ctx.run("ss58_encode", [data, fmt], "rand")
+        s = ss58_ref(data, fmt) or ss58_ref(data, 0)
+        ctx.run("ss58_decode", [s], "valid")
+        t = list(s)
+        k = rng.randrange(5)
+        if k == 0:
+            t[rng.randrange(len(t))] = rng.choice(B58)
+        elif k == 1:
+            t[rng.randrange(len(t))] = rng.choice("0OIl+/ éK\U0001F600")
+        elif k == 2:
+            t.insert(rng.randrange(len(t) + 1), rng.choice(B58))
+        elif k == 3:
+            del t[rng.randrange(len(t))]
+        else:
+            t = t[:rng.randrange(len(t) + 1)]
+        ctx.run("ss58_decode", ["".join(t)], "mutated")
+
+
 def rand_bytes(rng, maxlen=200):
     k = rng.choice([0, 0, 1, 2, 3])
     n = rng.choice([0, 1, 2, 3, 4, 5, 8, 16, 20, 21, 25, 32, 33, 37, 64, 65, 78, 82, rng.randrange(maxlen)])
@@ -635,6 +748,7 @@ def generate(ctx):
     gen_intbytes(ctx)
     gen_convertbits(ctx)
     gen_base32(ctx)
+    gen_ss58(ctx)
 
 
 def gen_b58(ctx):
